@@ -10,6 +10,7 @@
 #include <mutex>
 #include <sstream>
 #include <thread>
+#include <sys/stat.h>
 #include <sys/wait.h>
 #include <unistd.h>
 #include "common/trace.hpp"
@@ -30,6 +31,11 @@ int main(int argc, char **argv) {
     const int maxThreads = 16;
     std::vector<std::string> scratch;
     for (int i = 0; i <= maxThreads; ++i) scratch.push_back(makeScratchDir("mt" + std::to_string(i)));     // created by the main thread only
+    // "saved to different paths" also means: different names in ONE directory. Style 1: same stem, extensions .t0 .t1 ...; style 2: names
+    // without extension in a directory whose name contains a dot (session.1/t0_out_0, session.1/t1_out_0)
+    const std::string shared = makeScratchDir("mtshared"), dotted = shared + "/session.1";
+    mkdir(dotted.c_str(), 0700);
+    std::map<int, long long> styleReps;
     long long reps = 0, overlapping = 0, threadsRun = 0; std::string failCase, failMsg; std::vector<std::string> samples;
     int rc = 0;
     while (std::getline(is, path)) {
@@ -43,6 +49,9 @@ int main(int argc, char **argv) {
             if (!per.empty()) per.back().ops.push_back(op);
         }
         if (per.empty() || per.size() > static_cast<size_t>(maxThreads)) continue;
+        const int style = static_cast<int>((seed < 0 ? -seed : seed) % 3);
+        ++styleReps[style];
+        auto dirOf = [&](size_t t, bool aloneRun) { return style == 0 ? (aloneRun ? scratch[maxThreads] : scratch[t]) : (style == 1 ? shared : dotted); };
         fprintf(stderr, "RUNNING %s\n", path.c_str());
         // every repetition runs in a fresh child process (the parent has no threads): function-local statics and other lazily
         // initialised hidden state are in their initial state when the threads start, and the concurrent phase comes FIRST
@@ -59,7 +68,7 @@ int main(int argc, char **argv) {
             for (size_t t = 0; t < per.size(); ++t) {
                 th.emplace_back([&, t] {
                     Rng r(static_cast<uint64_t>(seed) * 1315423911ULL + t);
-                    TraceOpts o;
+                    TraceOpts o; o.pathStyle = style; o.pathTag = "t" + std::to_string(t);
                     o.beforeOp = [&r](size_t) {
                         uint64_t k = r.below(8);
                         if (k == 0) std::this_thread::yield();
@@ -73,14 +82,14 @@ int main(int argc, char **argv) {
                     };
                     ready.fetch_add(1);
                     while (!go.load()) std::this_thread::yield();
-                    together[t] = traceOf(per[t], scratch[t], o);
+                    together[t] = traceOf(per[t], dirOf(t, false), o);
                 });
             }
             while (ready.load() < static_cast<int>(per.size())) std::this_thread::yield();
             go.store(true);
             for (auto &x : th) x.join();
             // reference: every script alone, afterwards
-            for (size_t t = 0; t < per.size(); ++t) alone[t] = traceOf(per[t], scratch[maxThreads]);
+            for (size_t t = 0; t < per.size(); ++t) { TraceOpts o; o.pathStyle = style; o.pathTag = "t" + std::to_string(t); alone[t] = traceOf(per[t], dirOf(t, true), o); }
             bool ov = false;
             for (size_t a = 0; a < per.size() && !ov; ++a) for (size_t b = a + 1; b < per.size() && !ov; ++b)
                 for (auto &sa : spans[a]) for (auto &sb : spans[b]) if (sa.b < sb.e && sb.b < sa.e) ov = true;
@@ -103,7 +112,7 @@ int main(int argc, char **argv) {
         break;
     }
     std::ostringstream js;
-    js << "{\"repetitions\":" << reps << ",\"overlapping\":" << overlapping << ",\"threads_run\":" << threadsRun << ",\"ok\":" << (rc == 0 ? "true" : "false")
+    js << "{\"path_styles\":{\"own-directory\":" << styleReps[0] << ",\"one-directory-extensions-differ\":" << styleReps[1] << ",\"dotted-directory-no-extension\":" << styleReps[2] << "},\"repetitions\":" << reps << ",\"overlapping\":" << overlapping << ",\"threads_run\":" << threadsRun << ",\"ok\":" << (rc == 0 ? "true" : "false")
        << ",\"fail_case\":" << jsonStr(failCase) << ",\"fail_msg\":" << jsonStr(failMsg) << ",\"samples\":[";
     for (size_t i = 0; i < samples.size(); ++i) js << (i ? "," : "") << jsonStr(samples[i]);
     js << "]}\n";
